@@ -49,6 +49,10 @@ fn main() {
         println!("in-model zones: {}", model::time_ref::in_model_zones().len());
         return;
     }
+    if args[0] == "__c14probe" {
+        props::c14::probe();
+        return;
+    }
     if args[0] == "__child" {
         // hsmc __child <prop> <tier> <job> <start> <end> <step>
         let prop = args[1].clone();
@@ -70,6 +74,9 @@ fn main() {
                     props::c09::child(tier, job, s, e, ctx, local)
                 })
             }
+            "C14" => engine::isolate::child_main(start, end, step, 120, 8 << 30, 16 << 20, move |s, e, ctx, local| {
+                props::c14::child(tier, job, s, e, ctx, local)
+            }),
             other => machinery(&format!("no child entry for {other}")),
         }
     }
@@ -87,6 +94,7 @@ fn main() {
         "C11" => c11,
         "C12" => c12,
         "C13" => c13,
+        "C14" => c14,
         "C15" => c15,
         "C16" => c16,
         "C19" => c19,
